@@ -41,7 +41,7 @@ ESCAPED_PRINTABLES = [TRANSFORMATIONS.get(x, x)
 
 DOT_REPLACEMENT = "(" + "|".join(ESCAPED_PRINTABLES) + ")"
 
-TO_ESCAPE_IN_BRACKETS = "(+*)?."
+TO_ESCAPE_IN_BRACKETS = "(+*)?.$"
 
 SHORTCUTS = {
     " ": "\\ ",  # We have to do this due to how Regex separate words
